@@ -217,6 +217,10 @@ def _assume(c, f, guard):
             return implies(and_(guard, _bounds(idx, dims)), body)
 
         c.add_universal(rank, inst, f.name or "")
+    elif isinstance(f, AnyOf):
+        if all(_is_leaf(p) for p in f.parts):
+            c.assume(implies(guard, or_(*f.parts)))
+        # a disjunction with existential parts is simply not assumed (weaker, sound)
     elif isinstance(f, ExistsInt):
         w = tuple(c.fresh("e", "int") for _ in range(f.n))
         _assume(c, f.fn(*w), guard)
